@@ -124,6 +124,7 @@ def control(ctx: "Ctx", mod, name: str, make_variant, expect_rule: str, expect_w
         return
     sub = Ctx(ctx.prop, ctx.tier, Repo(ctx.repo.root, sources=src))
     sub.is_control = True
+    sub.nested_ok = True
     try:
         mod.check(sub)
     except AnalysisError as e:
@@ -142,6 +143,31 @@ def control(ctx: "Ctx", mod, name: str, make_variant, expect_rule: str, expect_w
         return
     ctx.ok(ctx.prop + ".control", "control:" + name, "seeded defect reported by %s: %s" % (hits[0].rule, hits[0].message[:160]),
            trivial=True)
+
+
+def include(ctx: "Ctx", name: str, skip=()):
+    """Evaluate another property's clauses inside this check, under their own rule names (their positive controls are
+    skipped; findings are recorded for ctx.prop)."""
+    mod = importlib.import_module("sa.rules." + name)
+    sub = Ctx(ctx.prop, ctx.tier, ctx.repo)
+    sub.is_control = True
+    sub.nested_ok = True
+    try:
+        mod.check(sub)
+    finally:
+        for f in sub.findings:
+            if any(f.rule.startswith(p) for p in skip):
+                continue
+            if not any(g.key == f.key and g.rule == f.rule for g in ctx.findings):
+                ctx.findings.append(f)
+        ctx.instances.extend(i for i in sub.instances if not any(i["rule"].startswith(p) for p in skip))
+        for k, v in sub.rule_counts.items():
+            ctx.rule_counts[k] = ctx.rule_counts.get(k, 0) + v
+        ctx.functions |= sub.functions
+        for nn in sub.notes:
+            ctx.note(nn)
+        ctx.exceptions.extend(x for x in sub.exceptions if x not in ctx.exceptions)
+        ctx.extra.setdefault("included_clauses", []).append(name)
 
 
 def load_known() -> Dict[str, Any]:
